@@ -6,6 +6,7 @@ import (
 	"crypto/sha256"
 	"encoding/json"
 	"fmt"
+	"github.com/thushan/olla/internal/config"
 	"io"
 	"net/http"
 	"sort"
@@ -40,7 +41,11 @@ func getStack(engine string) (*stack.Stack, error) {
 	if s, ok := stacks[engine]; ok {
 		return s, nil
 	}
-	s, err := stack.Boot(stack.Options{Engine: engine, Balancer: "priority", ModelDiscovery: true})
+	opts := stack.Options{Engine: strings.TrimSuffix(engine, "+bigbuf"), Balancer: "priority", ModelDiscovery: true}
+	if strings.HasSuffix(engine, "+bigbuf") {
+		opts.Mutate = func(cfg *config.Config) { cfg.Proxy.StreamBufferSize = 64 << 10 }
+	}
+	s, err := stack.Boot(opts)
 	if err != nil {
 		return nil, err
 	}
@@ -761,6 +766,8 @@ type RelayCase struct {
 	// the rest arrives in reads of its own ("tail" = cut two bytes before the end, e.g. between
 	// the last line and its closing blank line)
 	Cuts []int `json:"cuts,omitempty"`
+	// BigBuf: proxy.stream_buffer_size is 64 KiB (the documented throughput tuning) instead of 8 KiB
+	BigBuf bool `json:"big_buf,omitempty"`
 }
 
 func genRelay(t *rapid.T) RelayCase {
@@ -807,6 +814,12 @@ func genRelay(t *rapid.T) RelayCase {
 				c.Cuts = append(c.Cuts, b)
 			}
 		}
+	}
+	c.BigBuf = rapid.IntRange(0, 2).Draw(t, "bigbuf") == 0
+	if c.BigBuf && rapid.Bool().Draw(t, "padded") && json.Valid(c.Body) && len(c.Body) < 64<<10 && len(c.Body) > 0 && c.Body[0] == '{' {
+		// a completion of a few tens of KB in one piece (a long answer): padded with JSON whitespace
+		c.Body = append(append([]byte{}, c.Body...), bytes.Repeat([]byte(" "), rapid.SampledFrom([]int{9000, 20000, 40000}).Draw(t, "pad"))...)
+		c.Mut += "+padded"
 	}
 	return c
 }
@@ -1021,7 +1034,12 @@ func (c RelayCase) respond(w http.ResponseWriter, _ *http.Request, _ *backend.Se
 func runRelay(c RelayCase) []ev.Violation {
 	var vs []ev.Violation
 	bad := func(sig, f string, a ...any) { vs = append(vs, ev.Violation{Sig: sig, Detail: fmt.Sprintf(f, a...)}) }
-	s, err := getStack(c.Engine)
+	eng := c.Engine
+	if c.BigBuf {
+		eng += "+bigbuf"
+		rec.Class("relay/stream_buffer_size=64KiB")
+	}
+	s, err := getStack(eng)
 	if err != nil {
 		rec.Inconclusive("boot: " + err.Error())
 		return nil
